@@ -288,7 +288,7 @@ def run(ck):
             continue
         seen.add(key)
         ck.report(dict(input=cases[ci]["line"], scenario=cases[ci]["scen"], dt=cases[ci]["dt"], S=cases[ci]["S"], T=cases[ci]["T"]), oracle=key, key="output:" + key, what="solver::run: " + f)
-    if not fails:
+    if not ck.violations:
         if not ok:
             ck.report(dict(log=ck.proof_res["log"][-3000:]), unchecked="Properties_C19.vo", what="proof obligations of C19 no longer check")
         if broken:
